@@ -114,13 +114,22 @@ class MacRecorder:
 class Wire:
     """socket stand-in: what one side writes the other reads; recv(n) may fragment"""
 
-    def __init__(self, ctx, fragment=False, timeouts=0):
+    def __init__(self, ctx, fragment=False, timeouts=0, partial_sends=0):
         self.ctx, self.fragment = ctx, fragment
         self.buf = b""
         self.nrecv = 0
+        self.partial_sends, self.nsend = partial_sends, 0   # the first `partial_sends` send() calls may accept less, or time out
         self.timeouts, self.ncalls = timeouts, 0      # the first `timeouts` recv() calls may time out instead of returning data
 
     def send(self, b):
+        self.nsend += 1
+        if self.nsend <= self.partial_sends and len(b) > 1:
+            how = self.ctx.choice("send-call-%d" % self.nsend, ["accepts-everything", "accepts-1-byte", "accepts-half", "times-out"])
+            if how == "times-out":
+                import socket
+                raise socket.timeout()
+            if how != "accepts-everything":
+                b = b[:1 if how == "accepts-1-byte" else len(b) // 2]
         self.buf = cat(self.buf, b) if len(self.buf) else b
         return len(b)
 
